@@ -156,13 +156,19 @@ func refExpect(c c32Case) c32Expect {
 	// values that could legitimately have been taken from the headers (superset)
 	for name, v := range c.Headers {
 		ln := strings.ToLower(name)
-		if ln == "x-forwarded-for" || ln == "cf-connecting-ip" {
+		if ln == "x-forwarded-for" || ln == "cf-connecting-ip" || strings.HasSuffix(ln, "-ip") || ln == "x-original-forwarded-for" {
 			for _, part := range strings.Split(v, ",") {
 				t := strings.TrimSpace(part)
 				if a, err := netip.ParseAddr(t); err == nil && a.Zone() == "" {
 					e.IPs[a.Unmap().String()] = true
 				}
 			}
+		}
+		if ln == "x-forwarded-scheme" || ln == "x-url-scheme" {
+			e.Schemes[strings.ToLower(strings.TrimSpace(v))] = true
+		}
+		if (ln == "x-forwarded-ssl" || ln == "front-end-https") && strings.EqualFold(strings.TrimSpace(v), "on") {
+			e.Schemes["https"] = true
 		}
 		if ln == "x-forwarded-proto" {
 			for _, part := range strings.Split(v, ",") {
@@ -496,6 +502,23 @@ func genC32Headers(rg *vkit.Rand) map[string]string {
 	}
 	if rg.Chance(5) {
 		h["Forwarded"] = "for=1.2.3.4;proto=https"
+	}
+	// other headers that proxies / CDNs use for the same purpose
+	if rg.Chance(20) {
+		name := vkit.Pick(rg, []string{"X-Real-IP", "True-Client-IP", "X-Client-IP", "X-Cluster-Client-IP", "Fastly-Client-IP", "X-Original-Forwarded-For"})
+		h[name] = vkit.Pick(rg, ips)
+	}
+	if rg.Chance(12) {
+		switch rg.Intn(4) {
+		case 0:
+			h["X-Forwarded-Scheme"] = "https"
+		case 1:
+			h["X-Forwarded-Ssl"] = "on"
+		case 2:
+			h["Front-End-Https"] = "on"
+		default:
+			h["X-Url-Scheme"] = "https"
+		}
 	}
 	return h
 }
